@@ -26,6 +26,12 @@ ENGINES = [
         "kind_free_text": "hand-assembled Foundry artifacts are run through halmos' run_contract; TLC executes deploy/setUp/test message sequences on the reference EVM and classifies the outcomes",
     },
     {
+        "name": "E2-exploration-model",
+        "path": "spec/SymExec.tla spec/MC_SymExec*.cfg harness/symexec_replay.py checks/c10.py",
+        "serves_properties": ["C10"],
+        "kind_free_text": "TLC explores the exploration algorithm itself (loop unrolling under solver faults); terminal states are replayed into SEVM.run with injected `unknown` answers",
+    },
+    {
         "name": "abi-model",
         "path": "spec/Abi.tla spec/AbiTypes.tla spec/MC_Abi.tla spec/AbiGen.tla spec/AbiRun.tla harness/abi_replay.py harness/abi_explore.py checks/c12.py",
         "serves_properties": ["C12"],
@@ -94,6 +100,13 @@ CHECKS: dict[str, dict] = {
         "text": "Call trees (depth 1-4, all call kinds, CREATE/CREATE2, every per-frame outcome, symbolic values and balances) are executed by TLC on Evm.tla with the frame invariants checked in every state; the root's output exposes every frame's context, flags, return data and the final storage/balances, and every halmos path covering an input must reproduce it exactly.",
         "note": "Same trusted base as C01; created-account addresses compared up to renaming; depth-1024 and gas effects not exercised.",
         "design_ref": "5 C09, 3.3",
+    },
+    "C10": {
+        "engine": "E2-exploration-model",
+        "technique": "SymExec.tla (SEVM.jumpi unroll accounting with injected solver `unknown`s) model-checked by TLC; every terminal state replayed into SEVM.run with the same fault schedule; run_contract scenarios with captured paths",
+        "text": "SymExec.tla models the exploration of a symbolic loop exactly as SEVM.jumpi does it (potential/must answers, per-path visit counts, DFS order, concretised inputs) with the solver allowed to answer `unknown` at chosen queries; TLC checks that an input is dropped only when the bounded flag is raised, that determined loops are never cut and that yielded paths are sound, and prints every terminal state; each is replayed into SEVM.run on the assembled loop with the `unknown`s injected at the same check() calls, and the yielded paths (covered inputs, return value), the flag and the number of solver queries must coincide. At the run_contract level the explored paths of regular tests, setUp() and invariant target calls are captured and evaluated on an argument grid: inputs covered by no path require a loop-bound / --width / --depth warning or a non-PASS status; a concrete loop above the bound must be explored to its end; an unsupported opcode must not end in PASS.",
+        "note": "The model covers the loop-shaped use of JUMPI (the shape the unrolling bound is about); replay uses a wrapper around Exec.check for fault injection, all other queries reach z3.",
+        "design_ref": "5 C10, A.2",
     },
     "C12": {
         "engine": "abi-model",
